@@ -375,3 +375,5 @@ MANIFEST = {
     'technique': 'inclusion facts from path conditions (value terms) + entailment of the validations + exhaustive finite-abstraction evaluation of the containment predicate',
     'design_ref': 'DESIGN.md 3/C12',
 }
+MANIFEST['note'] += (' Also decided here (necessary conditions shared between properties or added after the independent '
+                     'change rounds, DESIGN.md 8.7): traffic-selector codec hands fields on unchanged (from C05), each connection owns its protect list (from C19), inbound SA selectors/ports.')
